@@ -524,6 +524,11 @@ func runC15(c *ctx) {
 }
 
 var c15corpus = []string{
+	// namespace / name pairs whose texts run into each other when joined (after seed C15h: the certificate file of a
+	// Secret named with `-` as separator: t/a-tls and t-a/tls -> t-a-tls.pem): every Secret keeps its own file
+	"world svc+t/app!http:80:8080!- svc+t-a/app!http:80:8080!- sec+t/a-tls!tls!1!a.local sec+t-a/tls!tls!2!b.local ing+t/i1@1!haproxy,-!-!a.local>/:Prefix:app:80!a.local>a-tls!- ing+t-a/i2@2!haproxy,-!-!b.local>/:Prefix:app:80!b.local>tls!-",
+	"world svc+t/app!http:80:8080!- svc+t-a/app!http:80:8080!- sec+t/a-tls!tls!1!a.local sec+t-a/tls!tls!2!b.local ing+t-a/i2@1!haproxy,-!-!b.local>/:Prefix:app:80!b.local>tls!- ing+t/i1@2!haproxy,-!-!a.local>/:Prefix:app:80!a.local>a-tls!-",
+	"hist svc+t/app!http:80:8080!- svc+t-a/app!http:80:8080!- sec+t/a-tls!tls!1!a.local sec+t-a/tls!tls!2!b.local ing+t/i1@1!haproxy,-!-!a.local>/:Prefix:app:80!a.local>a-tls!- sync ing+t-a/i2@2!haproxy,-!-!b.local>/:Prefix:app:80!b.local>tls!- sync sec~t/a-tls!tls!3!a.local sync",
 	// seed C15f, minimised: one certificate replicated into d/tls1 and e/tls1 (equal content, two files), both replaced
 	// with the same new content in ONE batch, nothing else changes: each FILE needs its own `set ssl cert` (a memo keyed
 	// by the certificate hash sends one and leaves the hosts of the other Secret with the old certificate in memory)
